@@ -1,5 +1,6 @@
 SPECIFICATION Spec
 CONSTANTS
+  Narrow = FALSE
   MaxOps = 5
   RewriteFlow = TRUE
   DropStaleCkpt = TRUE
